@@ -68,14 +68,14 @@ PROPS = {
         "kx": [],
         "technique": "Verus sink precondition on the extracted FetchState::run: repository::update may only see tips of namespaces that the validation oracle accepted (loop invariant over the validation loop, prune contract); Verus contract on SignedRefs::verify (signature by the namespace key over the canonical text, identity root names this repository)",
         "explanation": "FetchState::run (the whole validation loop with all four DelegateStatus arms, continue/early-return paths) is verified: at the single call that writes to the git repository, every non-blocked remote among the advertised signed-refs remotes that still has tips was reported valid by sigrefs::validate and its advertised rad/sigrefs is neither behind nor diverged from the stored one (delegate or not); FetchState::prune is proved to remove exactly that remote's tips/ids/sigrefs. Unit fetch_validate proves what 'reported valid' means: <Cached as ValidateRepository>::validate_remote (both loops) returns no findings only if the fetched namespace contains refs/rad/sigrefs and otherwise exactly the signed refs, each at the signed oid; sigrefs::validate returns None exactly then. SignedRefs::verify/verified accept only when the ed25519 check of the claimed key over Refs::canonical succeeds and refs/rad/root resolves to an identity document whose blob id is this repository's id.",
-        "not_decided": "DataRefs::prepare_updates is a stand-in; the link between unit fetch_run's ghost `validated(r)` and unit fetch_validate's `matches_signed` is by name only (two units); Refdb::references_of is assumed to enumerate the namespace's refs exactly once; the iterator chains computing the delegate key set are stand-ins; the protocol stages (network, in-memory refdb) are arbitrary; that a namespace left out of `tips` is byte-for-byte untouched by libgit2 is outside any contract.",
+        "not_decided": "DataRefs::prepare_updates is a stand-in; repository::direct is under contract (unit fetch_ancestry: with Policy::Allow every successful outcome is an applied update, also for a rewound or diverged target) but 'Accepted' is tied to the libgit2 write only by inspection; the link between unit fetch_run's ghost `validated(r)` and unit fetch_validate's `matches_signed` is by name only (two units); Refdb::references_of is assumed to enumerate the namespace's refs exactly once; the iterator chains computing the delegate key set are stand-ins; the protocol stages (network, in-memory refdb) are arbitrary; that a namespace left out of `tips` is byte-for-byte untouched by libgit2 is outside any contract.",
     },
     "C02": {
         "vx": ["fetch_run", "fetch_ancestry"],
         "kx": [],
         "technique": "Verus sink precondition on the extracted FetchState::run: repository::update requires |valid delegates| >= identity threshold (minus one if the local node is a delegate) and that no remote whose signed refs were found missing/invalid during this fetch is counted; ghost set threaded through the validation oracles",
         "explanation": "The threshold expression, the valid_delegates bookkeeping in every arm of the loop and the final gate are verified together: update is reachable only if the set counted has at least doc.threshold() - [local is delegate] members, is a subset of the delegates, and contains no remote for which load returned no sigrefs or validate returned failures. A Diverged delegate aborts with Err before any update; a Behind delegate is pruned.",
-        "not_decided": "Only the Success/Failed gate in run is decided; ensure_threshold in SpecialRefs::pre_validate, special_update's Abort/Reject policies in refs.rs are outside the units. repository::ancestry is proved (unit fetch_ancestry) to classify exactly by libgit2's ahead/behind counts of the peeled commits (Equal / Ahead = strictly descends / Behind = rewind / Diverged = anything else); libgit2's graph_ahead_behind itself is assumed. 'Leaves local storage unchanged' on Failed is decided as 'repository::update is not called'; Doc::threshold() >= 1 is proved in unit identity.",
+        "not_decided": "Only the Success/Failed gate in run is decided; ensure_threshold in SpecialRefs::pre_validate, special_update in refs.rs (which policy a ref gets) is outside the units; repository::direct (what a policy then does) is under contract in unit fetch_ancestry: a rewind is never applied unless the policy is Allow, a fork is rejected (Reject) or aborts (Abort). repository::ancestry is proved (unit fetch_ancestry) to classify exactly by libgit2's ahead/behind counts of the peeled commits (Equal / Ahead = strictly descends / Behind = rewind / Diverged = anything else); libgit2's graph_ahead_behind itself is assumed. 'Leaves local storage unchanged' on Failed is decided as 'repository::update is not called'; Doc::threshold() >= 1 is proved in unit identity.",
     },
     "C20": {
         "vx": ["refs_verify"],
